@@ -110,8 +110,11 @@ func gen(t *rapid.T) Case {
 	if scen.IsOneWay(kind) {
 		c.Call.NoSendWait = rapid.Bool().Draw(t, "noSendWait")
 		if c.Call.NoSendWait && rapid.IntRange(0, 2).Draw(t, "blockedDial") == 0 {
-			// one idle node whose dial blocks; only meaningful for the first call to it
+			// one idle node whose dial blocks; only meaningful for the first call to it. The connection
+			// attempt must stay blocked for as long as the harness watches (gorums hands the back-off to
+			// grpc as the connect deadline): a call that waited for the connection would not return
 			c.BlockedDial = true
+			c.Mgr.BackoffMs = 30000
 		}
 	} else {
 		// threshold = number of targets (success by the non-skipped nodes alone) or one more (Incomplete accounting)
